@@ -542,6 +542,19 @@ func (pc *pathCheck) digestOK(dv ssa.Value, at *ssa.Call, fr *pframe) (bool, str
 	if call, _ := an.CallOf(o); call != nil && call.Call.IsInvoke() && call.Call.Method.Name() == "Digest" && isNamed(call.Call.Value.Type(), digestPkg, "Digester") {
 		return true, ""
 	}
+	// an accessor of the store package every return of which is a digester's Digest()
+	if hr := an.HelperReturns(o, func(h *ssa.Function) bool { return core.FuncPkgPath(h) == pc.r.StorePath }); len(hr) > 0 {
+		all := true
+		for _, x := range hr {
+			call, _ := an.CallOf(an.Origin(x.Val))
+			if call == nil || !call.Call.IsInvoke() || call.Call.Method.Name() != "Digest" || !isNamed(call.Call.Value.Type(), digestPkg, "Digester") {
+				all = false
+			}
+		}
+		if all {
+			return true, ""
+		}
+	}
 	if ok, _ := pc.digestGuarded(dv, o, at); ok {
 		return true, ""
 	}
